@@ -247,6 +247,10 @@ func (c *Ctx) Finish(verifDir string, seed int, explanation string, trusted []st
 	for k, v := range c.Extra {
 		cov[k] = v
 	}
+	if c.Assume == nil {
+		c.Assume = []string{}
+	}
+	c.Assume = append(c.Assume, "the analysed tree is /repo's working tree, non-test files of the three packages, default build tags, 64-bit gc sizes")
 	ev := map[string]interface{}{
 		"property_id": c.Prop,
 		"tier":        c.Tier,
